@@ -3,11 +3,12 @@ package vc
 import (
 	"bytes"
 	"context"
-	"runtime"
 	"fmt"
+	"hash/fnv"
 	"os"
 	"os/exec"
 	"path/filepath"
+	"runtime"
 	"strings"
 	"sync"
 	"time"
@@ -197,7 +198,10 @@ func runSolver(ctx context.Context, sc SolverCfg, file string, timeoutS, seed in
 func fileName(name string) string {
 	s := smtName(name)
 	if len(s) > 150 {
-		s = s[:150]
+		// keep truncated names distinct: obligations are solved concurrently, one file each
+		h := fnv.New64a()
+		h.Write([]byte(name))
+		s = fmt.Sprintf("%s_%016x", s[:130], h.Sum64())
 	}
 	return s
 }
